@@ -59,10 +59,11 @@ package account
 
 // ---- queries (C19, C06)
 //@ func (ctrler *AcctCtrler) Query(req)
+//@   nopanic
 //@   objinv ctrler != nil && ctrler.acctLedger != nil
 //@   assumes !cons_ok
 //@   modifies everything
-//@   preserves allmaps(memItems.gotItems), allmaps(memItems.updatedItems), memItems.*, allelems(memItems.removedKeys), FinalityLedger.*, SimpleLedger.*, MemLedger.*, StakeCtrler.*, GovCtrler.*, AcctCtrler.*, GovParams.*, cons_ok, deadobj
+//@   preserves allmaps(memItems.gotItems), allmaps(memItems.updatedItems), memItems.*, allelems(memItems.removedKeys), FinalityLedger.*, SimpleLedger.*, MemLedger.*, StakeCtrler.*, GovCtrler.*, AcctCtrler.*, GovParams.*, RigoApp.*, cons_ok, deadobj
 //@   assert@call(ImmutableLedgerAt,0): $arg0 == req.Height && $target == ctrler.acctLedger                    [C19]
 //@   assert@call(Read,0): immuheight[$target] == req.Height && $arg0 == lkey(content(req.Data))               [C19]
 
